@@ -19,7 +19,7 @@ let handle (w : string list) : string =
     let parse s e =
       match e with
       | "LD" -> ELockD | "WD" -> EWaitD | "KD" -> EWokenD | "UD" -> EUnlockD | "X" -> EExit
-      | "WW" -> EWdWake | "AI" -> ESigArrive SInt | "AT" -> ESigArrive STstp | "TK" -> ESigTake | "RA" -> ERaise
+      | "WW" -> EWdWake | "AI" -> ESigArrive SInt | "AT" -> ESigArrive STstp | "TK" -> ESigTake | "MK" -> ESigMark | "RA" -> ERaise
       | "SL1" -> ELock1S | "SU1" -> EUnlock1S | "XS" -> EExitS | "SL0" -> ELock0S | "SU0" -> EUnlock0S
       | "TI" -> ETick | "SP" -> ESpur
       | _ ->
